@@ -2,13 +2,14 @@ SPECIFICATION C17Spec
 CONSTANTS
   Minerals = {a, b, c}
   Files = {f1, f2}
-  Postfixes = {"p", "q", "r"}
+  Postfixes = {"1", "10", "q"}
   Configs <- C17Configs
   Seeds = {1, 2}
   Textures = {"random", "nonuniform"}
   Flows = {"ss_xz", "gen3d"}
   Pars <- C17Pars
   Callbacks = {}
+  FixedSavers = TRUE
   MaxUpd = 3
   MaxOps = 12
 INVARIANT EmitAtEnd
